@@ -7,7 +7,7 @@ CONSTANT TraceFile
 VARIABLES l, bad, cnt
 Trace == ndJsonDeserialize(TraceFile)
 vars == <<l, bad, cnt>>
-Init == l = 1 /\ bad = {} /\ cnt = [ops |-> 0, ok |-> 0, refused |-> 0, connect |-> 0, chunk |-> 0, giveup |-> 0]
+Init == l = 1 /\ bad = {} /\ cnt = [ops |-> 0, stop |-> 0, ok |-> 0, refused |-> 0, connect |-> 0, chunk |-> 0, giveup |-> 0]
 Flag(ev, what) == bad \cup {<<ev.t, ev.i, ev.ev, what>>}
 \* the request as the specification runs it: chunk by chunk, producer and job taking turns
 RECURSIVE Run(_, _, _)
@@ -18,7 +18,9 @@ Run(j, c, ev) ==
 Expected(ev) ==
   LET j0 == JInit(ev.n, ev.kind = "stream", ev.fault = "unknown") IN
   IF Ended(j0) THEN j0
-  ELSE LET j1 == Connect(j0, ev.fault # "connect") IN Run(j1, 1, ev)
+  ELSE LET j1 == Connect(j0, ev.fault # "connect") IN
+       \* the transport is closed under the job: however far it got, it ends as failed
+       IF ev.fault = "stop" THEN [Stop(j1) EXCEPT !.sent = ev.sent] ELSE Run(j1, 1, ev)
 Next ==
   /\ l <= Len(Trace)
   /\ l' = l + 1
@@ -29,10 +31,11 @@ Next ==
                  \cup (IF ev.failed + ev.success = 1 THEN {} ELSE {"not_exactly_one_report"})
                  \cup (IF ev.failed + ev.success = 1 /\ (ev.success = 1) # (e.reports = <<FALSE>>) THEN {"report_not_truthful"} ELSE {})
                  \cup (IF ev.sent = e.sent THEN {} ELSE {"chunks_sent"})
+                 \cup (IF ev.fault = "stop" /\ ~(ev.sent <= ev.accepted /\ ev.refused) THEN {"producer_not_sent_away_at_stop"} ELSE {})
                  \cup (IF ev.ret = (e.st # "refused") THEN {} ELSE {"answer"})
                  \cup (IF ev.kind = "file" /\ ev.released # 1 THEN {"snapshot_reference_not_given_back"} ELSE {})
           IN /\ bad' = IF what = {} THEN bad ELSE Flag(ev, what)
-             /\ cnt' = [cnt EXCEPT !.ops = @ + 1, !.ok = @ + (IF ev.fault = "" THEN 1 ELSE 0),
+             /\ cnt' = [cnt EXCEPT !.ops = @ + 1, !.stop = @ + (IF ev.fault = "stop" THEN 1 ELSE 0), !.ok = @ + (IF ev.fault = "" THEN 1 ELSE 0),
                                    !.refused = @ + (IF ev.fault = "unknown" THEN 1 ELSE 0),
                                    !.connect = @ + (IF ev.fault = "connect" THEN 1 ELSE 0),
                                    !.chunk = @ + (IF ev.fault = "chunk" THEN 1 ELSE 0),
